@@ -84,7 +84,7 @@ CHECKS = [
          ref="4/C20"),
     dict(id="C17", engine="remote-scenario", technique="TLC exhaustive on RemoteLink.tla + B-scenario: every maximal operation sequence replayed on two real engines connected by real remotes over loopback TCP (cmd/remotescen)",
          text="RemoteLink.tla models the router's one-writer-per-address table and the writer's life (dial, connected, unreachable -> shutdown, event to the router, dead letters until the router has seen it) at the grain of operations awaited to quiescence: bursts from sender goroutines, requests answered by the peer, peer down (Remote.Stop().Wait()), a fresh peer up on the same address, Start / Stop called twice. TLC checks delivered-or-dead-lettered-never-both, per-sender order, a fresh attempt after an unreachable episode (action property), replies and reporting, and exports every sequence with the state expected after each step; each sequence runs on real TCP and the harness compares delivered bursts (exactly once, in order, right sender PID, on the right incarnation of the peer), dead letters (count and original target / sender through the unwrapped streamDeliver), RemoteUnreachableEvents, answers, and that a stopped remote refuses connections. The regression config (router never forgets a dead writer) must fail in TLC.",
-         note="phase-level steps (interleavings inside a burst are whatever the run produces; first-contact bursts are 20000 messages so that the hand-over overlaps the dial); connection loss in mid-stream is outside the property; timing constants (dial back-off, idle deadline) are not verified; one peer that goes down and comes back plus a second peer that is up all the time (isolation of the per-address writers)",
+         note="phase-level steps (interleavings inside a burst are whatever the run produces; first-contact bursts are 20000 messages so that the hand-over overlaps the dial); connection loss in mid-stream is outside the property; timing constants (dial back-off, idle deadline) are not verified; one peer that goes down and comes back plus a second peer that is up all the time (isolation of the per-address writers); free-running rounds of traffic during an outage (96 quick / 480 thorough) judged by C17_FreshAttempt",
          ref="4/C17"),
 ]
 
